@@ -10,16 +10,18 @@ EXTENDS Yata, Json, IOUtils
 Rec == ndJsonDeserialize(IOEnv.TRACE)
 
 VARIABLES l,       \* next trace line
+          ln0,    \* line of the current behaviour's reset event
           bid,     \* id of the current behaviour
           E,       \* element table
           XD,      \* ids removed by an explicit delete / remove call
+          U,       \* updates emitted by local operations, in emission order: [ins, del]
           S,       \* replica id -> replica record
           cfg,     \* replica id -> [gc : BOOLEAN]
           failed,  \* current behaviour already has a violation
           viol,    \* set of <<bid, predicate, line>>
           drift,   \* set of <<bid, what, line>>: implementation-level prediction differs
           cnt      \* [beh, ev, checks] counters
-vars == <<l, bid, E, XD, S, cfg, failed, viol, drift, cnt>>
+vars == <<l, ln0, bid, E, XD, U, S, cfg, failed, viol, drift, cnt>>
 
 Ev == Rec[l]
 Ids(q) == Range(q)
@@ -61,8 +63,8 @@ SvAgrees(R, o) == Ids(o.sv) \ {<<x[1], 0>> : x \in Ids(o.sv)} = SVOf(Have(R))
 (* implementation-level prediction: YATA placement of the newly listed elements *)
 PlacementPredicted(E2, R, R2) ==
   LET new == Units(R2.lst) \ Units(R.lst)
-      base == [c \in DOMAIN R.lst |-> Without(R.lst[c], R2.gone)]
-      pred == IntegrateSet(E2, base, Units(base), new)
+      base0 == [c \in DOMAIN R.lst |-> Without(R.lst[c], R2.gone)]
+      pred == IntegrateSet(E2, base0, Units(base0), new)
   IN \A c \in DOMAIN R2.lst : Without(Lst(pred, c), R2.gone) = R2.lst[c]
 
 (* checks common to every step of replica r: R -> R2 *)
@@ -97,15 +99,15 @@ FolChecks(E2, R2, o, f) ==
 Failing(chk) == {chk[i][1] : i \in {j \in 1..Len(chk) : ~chk[j][2]}}
 
 Record(bad, dr) ==
-  /\ viol' = viol \cup {<<bid, p, l>> : p \in bad}
+  /\ viol' = viol \cup {<<bid, p, l - ln0>> : p \in bad}
   /\ failed' = (failed \/ bad # {})
-  /\ drift' = drift \cup {<<bid, d, l>> : d \in dr}
+  /\ drift' = drift \cup {<<bid, d, l - ln0>> : d \in dr}
 
 ---------------------------------------------------------------------------
 Reset ==
   /\ Ev.k = "reset"
-  /\ bid' = Ev.bid
-  /\ E' = EmptyFn /\ XD' = {}
+  /\ bid' = Ev.bid /\ ln0' = l
+  /\ E' = EmptyFn /\ XD' = {} /\ U' = <<>>
   /\ S' = [r \in {Ev.cfg.replicas[i].id : i \in 1..Len(Ev.cfg.replicas)} |-> EmptyReplica]
   /\ cfg' = [r \in {Ev.cfg.replicas[i].id : i \in 1..Len(Ev.cfg.replicas)} |->
                [gc |-> Ev.cfg.replicas[CHOOSE i \in 1..Len(Ev.cfg.replicas) : Ev.cfg.replicas[i].id = r].gc]]
@@ -116,7 +118,7 @@ Reset ==
 Skip ==  \* behaviour already failed, or an event this module does not interpret
   /\ Ev.k # "reset"
   /\ failed
-  /\ UNCHANGED <<bid, E, XD, S, cfg, failed, viol, drift, cnt>>
+  /\ UNCHANGED <<ln0, bid, E, XD, U, S, cfg, failed, viol, drift, cnt>>
 
 PanicOrError(outcome) == outcome # "ok"
 
@@ -160,9 +162,10 @@ Local ==
                \cup (IF ok /\ ~StashTight(R2) THEN {"stash-not-tight"} ELSE {})
      IN /\ Record(Failing(chk), dr)
         /\ E' = E2 /\ XD' = XD2
+        /\ U' = IF call.a = "gcf" THEN U ELSE Append(U, [ins |-> InsIds(us), del |-> Ids(Ev.upd.del)])
         /\ S' = [S EXCEPT ![r] = R2]
         /\ cnt' = [cnt EXCEPT !.ev = @ + 1, !.checks = @ + Len(chk)]
-  /\ UNCHANGED <<bid, cfg>>
+  /\ UNCHANGED <<ln0, bid, cfg>>
 
 (* replica r applies a payload (one update, a merged update, a diff or a full state) *)
 ApplyTo(r, payload, emit, outcome, wire, o, nev, hasfol, fol, extra(_, _, _)) ==
@@ -182,16 +185,44 @@ ApplyTo(r, payload, emit, outcome, wire, o, nev, hasfol, fol, extra(_, _, _)) ==
       dr == (IF ok /\ ~PlacementPredicted(E2, R, R2) THEN {"placement"} ELSE {})
             \cup (IF ok /\ ~StashTight(R2) THEN {"stash-not-tight"} ELSE {})
   IN /\ Record(Failing(chk), dr)
-     /\ E' = E2 /\ XD' = XD
+     /\ E' = E2 /\ XD' = XD /\ U' = U
      /\ S' = [S EXCEPT ![r] = R2]
      /\ cnt' = [cnt EXCEPT !.ev = @ + 1, !.checks = @ + Len(chk)]
 
 NoExtra(E2, R, R2) == <<>>
 
+(* document-free update algebra (C08): what merge_updates / diff_updates produce is compared with
+   the abstract meaning -- union of the merged updates, filtered by the state vector *)
+ValidIdx(us) == \A i \in 1..Len(us) : us[i] \in 1..Len(U)
+MergedIns(us) == UNION {U[us[i]].ins : i \in 1..Len(us)}
+MergedDel(us) == UNION {U[us[i]].del : i \in 1..Len(us)}
+SvAt(sv, c) == IF \E i \in 1..Len(sv) : sv[i][1] = c THEN sv[CHOOSE i \in 1..Len(sv) : sv[i][1] = c][2] ELSE 0
+AlgebraChecks(E2, R, R2) ==
+  IF ~ValidIdx(Ev.u) THEN << <<"C08_MergeExact", FALSE>> >>
+  ELSE LET mi == MergedIns(Ev.u)
+           md == MergedDel(Ev.u)
+       IN << <<"C08_MergeExact", InsIds(Ev.full.ins) = mi /\ Ids(Ev.full.del) = md>>,
+             <<"C08_DiffExact", ~Ev.diff \/
+                  ( /\ InsIds(Ev.upd.ins) \subseteq mi
+                    /\ {x \in mi : x[2] >= SvAt(Ev.svq, x[1])} \subseteq InsIds(Ev.upd.ins)
+                    /\ Ids(Ev.upd.del) = md )>> >>
+
 Deliver ==
   /\ Ev.k = "dlv" /\ ~failed
-  /\ ApplyTo(Ev.r, Ev.upd, Ev.emit, Ev.outcome, Ev.wire, Ev.obs, Ev.nev, Ev.hasfol, Ev.fol, NoExtra)
-  /\ UNCHANGED <<bid, cfg>>
+  /\ ApplyTo(Ev.r, [ins |-> Ev.full.ins, del |-> Ev.full.del], Ev.emit, Ev.outcome, Ev.wire, Ev.obs, Ev.nev, Ev.hasfol, Ev.fol, AlgebraChecks)
+  /\ UNCHANGED <<ln0, bid, cfg>>
+
+SvOfUpdate ==
+  /\ Ev.k = "svu" /\ ~failed
+  /\ LET ok == ValidIdx(Ev.u)
+         mi == IF ok THEN MergedIns(Ev.u) ELSE {}
+         gapfree == \A x \in mi : \A k \in 0..x[2] : <<x[1], k>> \in mi
+         chk == << <<"C08_NoFailure", ok /\ Ev.outcome = "ok" /\ Ev.wire = "">>,
+                   <<"C08_MergeExact", ok /\ InsIds(Ev.full.ins) = mi /\ Ids(Ev.full.del) = MergedDel(Ev.u)>>,
+                   <<"C08_SvEq", ~gapfree \/ Ids(Ev.sv) \ {<<x[1], 0>> : x \in Ids(Ev.sv)} = SVOf(mi)>> >>
+     IN /\ Record(Failing(chk), {})
+        /\ cnt' = [cnt EXCEPT !.ev = @ + 1, !.checks = @ + Len(chk)]
+  /\ UNCHANGED <<ln0, bid, E, XD, U, S, cfg>>
 
 (* state-vector sync: t applies what f encodes against a state vector of t *)
 Sync ==
@@ -208,19 +239,19 @@ Sync ==
               <<"C06_Complete", \A x \in Have(F) : x \in Have(R) \/ x \in InsIds(Ev.upd.ins)>>,
               <<"C06_Monotone", \A x \in SVOf(Have(R)) : \E y \in SVOf(Have(R2)) : y[1] = x[1] /\ y[2] >= x[2]>> >>
      IN ApplyTo(Ev.t, Ev.upd, Ev.emit, Ev.outcome, Ev.wire, Ev.obs, Ev.nev, Ev.hasfol, Ev.fol, Extra)
-  /\ UNCHANGED <<bid, cfg>>
+  /\ UNCHANGED <<ln0, bid, cfg>>
 
 Nondet ==
   /\ Ev.k = "nondet" /\ ~failed
   /\ Record({"C01_Deterministic"}, {})
-  /\ UNCHANGED <<bid, E, XD, S, cfg, cnt>>
+  /\ UNCHANGED <<ln0, bid, E, XD, U, S, cfg, cnt>>
 
-TInit == /\ l = 1 /\ bid = "" /\ E = EmptyFn /\ XD = {} /\ S = EmptyFn /\ cfg = EmptyFn /\ failed = FALSE
+TInit == /\ l = 1 /\ ln0 = 0 /\ bid = "" /\ E = EmptyFn /\ XD = {} /\ U = <<>> /\ S = EmptyFn /\ cfg = EmptyFn /\ failed = FALSE
          /\ viol = {} /\ drift = {} /\ cnt = [beh |-> 0, ev |-> 0, checks |-> 0]
 
 TNext == /\ l <= Len(Rec)
          /\ l' = l + 1
-         /\ (Reset \/ Skip \/ Local \/ Deliver \/ Sync \/ Nondet)
+         /\ (Reset \/ Skip \/ Local \/ Deliver \/ SvOfUpdate \/ Sync \/ Nondet)
 
 TSpec == TInit /\ [][TNext]_vars
 
